@@ -117,6 +117,15 @@ class _GenRun:
         self.interp, self.body, self.env, self.cls = interp, body, env, cls
         self.req, self.rsp = threading.Semaphore(0), threading.Semaphore(0)
         self.item, self.finished, self.exc, self.closed, self.thread = None, False, None, False, None
+        self.thrown = None
+
+    def throw(self, exc):
+        """raise `exc` in the body at the yield it waits at and run it on: -> (True, item) when it yields again, (False, None) when it
+        ends; the exception (or another one) leaves through the caller when the body does not catch it"""
+        if self.finished or self.thread is None:
+            raise exc
+        self.thrown = exc
+        return self.producer()
 
     def _main(self):
         self.req.acquire()
@@ -140,6 +149,10 @@ class _GenRun:
         self.req.acquire()
         if self.closed:
             raise _GenExit()
+        if self.thrown is not None:
+            # generator.throw(): the exception is raised where the body waits at its yield
+            e, self.thrown = self.thrown, None
+            raise e
 
     def producer(self):
         import threading
@@ -605,6 +618,18 @@ class Interp:
             return (False, None)
         return PyIter([], producer_)
 
+    def is_contextmanager(self, fnode):
+        """the called function is a generator function of the module decorated with contextlib.contextmanager"""
+        h = self.h
+        name = fnode.id if isinstance(fnode, ast.Name) else None
+        if name is None:
+            return False
+        for mod_ in (h.module.mods if hasattr(h.module, 'mods') else [h.module]):
+            f_ = mod_.funcs.get(name)
+            if f_ is not None and any(norm(d) in ('contextlib.contextmanager', 'contextmanager') for d in f_.node.decorator_list):
+                return True
+        return False
+
     def is_module_logger(self, name):
         """NAME = logging.getLogger(...) at module level"""
         h = self.h
@@ -657,6 +682,11 @@ class Interp:
             allargs = list(args)
             if fn.self_ref is not None and 'staticmethod' not in decos:
                 allargs = [fn.self_ref] + allargs
+            elif fn.self_ref is None and 'classmethod' in decos and fn.cls and not (
+                    allargs and isinstance(allargs[0], tuple) and len(allargs[0]) == 2 and allargs[0][0] == 'class') \
+                    and len(allargs) + sum(1 for k_ in (kwargs or {}) if k_ in params) < len(params) - len(node.args.defaults):
+                # a class method taken from its class (the caller gave the arguments after `cls` only): the class is the first argument
+                allargs = [('class', fn.cls)] + allargs
             if node.args.vararg is not None:
                 # def f(a, *rest): the arguments beyond the named parameters, as a tuple
                 env[node.args.vararg.arg] = tuple(allargs[len(params):])
@@ -951,6 +981,8 @@ class Interp:
                 return ('strmethod', base, e.attr)          # ... and of decided bytes: CPython's own bytes decides
             if e.attr == '__class__' and isinstance(base, Ref) and h.objs[base.name]['__class__'] in h.module.classes:
                 return ('class', h.objs[base.name]['__class__'])
+            if isinstance(base, Ref) and h.objs[base.name]['__class__'] == '#StringIO' and isinstance(e.ctx, ast.Load) and e.attr in ('write', 'getvalue', 'close'):
+                return ('boundmethod', base, e.attr)        # a method of a text buffer taken as a value (`write = buf.write`)
             if isinstance(base, Ref) and h.objs[base.name]['__class__'] in ('list', 'dict') and isinstance(e.ctx, ast.Load) and e.attr in (
                     'append', 'extend', 'insert', 'update', 'setdefault', 'get', 'pop', 'remove', 'add', 'discard', 'clear', 'keys', 'values', 'items', 'index', 'count'):
                 return ('boundmethod', base, e.attr)        # a method of a builtin container taken as a value (`add = xs.append`)
@@ -1015,6 +1047,19 @@ class Interp:
                     return res if isinstance(op, ast.In) else not res
             if isinstance(l, int) and isinstance(r, int):
                 return {ast.Lt: l < r, ast.LtE: l <= r, ast.Gt: l > r, ast.GtE: l >= r}[type(op)]
+            if isinstance(op, (ast.Lt, ast.LtE, ast.Gt, ast.GtE)) and (
+                    (isinstance(l, Ref) and h.objs[l.name]['__class__'] in h.module.classes) or (isinstance(r, Ref) and h.objs[r.name]['__class__'] in h.module.classes)):
+                # an object of the module on one side: its own rich comparison method, else the reflected one of the other side
+                nm_ = {ast.Lt: '__lt__', ast.LtE: '__le__', ast.Gt: '__gt__', ast.GtE: '__ge__'}[type(op)]
+                refl_ = {'__lt__': '__gt__', '__le__': '__ge__', '__gt__': '__lt__', '__ge__': '__le__'}[nm_]
+                for me_, other_, m_ in ((l, r, nm_), (r, l, refl_)):
+                    if isinstance(me_, Ref) and h.objs[me_.name]['__class__'] in h.module.classes:
+                        f_ = h.module.method(h.objs[me_.name]['__class__'], m_)
+                        if f_ is not None:
+                            res_ = self.call(Closure(f_.node, {}, me_, f_.cls), [other_])
+                            if not (isinstance(res_, tuple) and res_ == ('NotImplemented',)) and res_ is not NotImplemented:
+                                return res_
+                raise Raised('TypeError', h.version, e.lineno)
             if isinstance(op, (ast.Lt, ast.LtE, ast.Gt, ast.GtE)):
                 # two lists / two tuples of decided numbers or texts: Python's lexicographic order; two decided texts: code point order
                 def plain_(v_):
@@ -1344,6 +1389,17 @@ class Interp:
             return chr(args[0])
         if isinstance(fn, ast.Name) and fn.id in ('max', 'min', 'sorted', 'sum') and fn.id not in env and args and isinstance(args[0], PyIter):
             args = [args[0].drain()] + list(args[1:])          # an iterator is walked once, whichever branch below takes the call
+        if isinstance(fn, ast.Name) and fn.id == 'sum' and 'sum' not in env and 1 <= len(args) <= 2 and set(kwargs) <= {'start'}:
+            vals = self.seq(args[0])
+            start_ = args[1] if len(args) == 2 else kwargs.get('start', 0)
+            if all(isinstance(v, int) and not isinstance(v, bool) for v in vals + [start_]):
+                return sum(vals, start_)
+            if all(isinstance(v, SInt) or (isinstance(v, int) and not isinstance(v, bool)) for v in vals + [start_]):
+                tot_ = start_
+                for v in vals:
+                    tot_ = tot_ + v
+                return tot_
+            raise AnalysisError('heap model: sum of %s' % norm(e)[:60])
         if isinstance(fn, ast.Name) and fn.id == 'max' and 'max' not in env and len(args) >= 1 and not kwargs:
             vals = self.seq(args[0]) if len(args) == 1 else list(args)
             if vals and all(isinstance(v, int) for v in vals):
@@ -2693,6 +2749,19 @@ class Interp:
                         env[item.optional_vars.id] = self.ev(ce_.args[0], env, cls) if ce_.args else None
                     continue
                 v_ = self.ev(item.context_expr, env, cls)
+                if isinstance(v_, PyIter) and isinstance(v_.owner, _GenRun) and isinstance(ce_, ast.Call) and self.is_contextmanager(ce_.func):
+                    # a function decorated with contextlib.contextmanager: the block runs while its generator waits at its yield
+                    if not v_.has_next():
+                        raise Raised('RuntimeError', h.version, st.lineno)          # generator didn't yield
+                    got_ = v_.take()
+                    entered.append(('genctx', v_))
+                    if item.optional_vars is not None:
+                        if not isinstance(item.optional_vars, ast.Name):
+                            raise AnalysisError('heap model: with ... as %s' % norm(item.optional_vars))
+                        env[item.optional_vars.id] = got_
+                    continue
+                if isinstance(v_, Ref) and h.objs[v_.name]['__class__'] not in h.module.classes and h.objs[v_.name]['__class__'] == 'File' and '.close' in h.hooks:
+                    entered.append(('stream', v_))          # a stream of the scenario: closed when the block is left, however it is left
                 if isinstance(v_, Ref) and h.objs[v_.name]['__class__'] in h.module.classes:
                     en_ = h.module.method(h.objs[v_.name]['__class__'], '__enter__')
                     ex_ = h.module.method(h.objs[v_.name]['__class__'], '__exit__')
@@ -2715,14 +2784,40 @@ class Interp:
                         if pending is not None and ex_.elts and _handler_matches(ex_, pending.exc):
                             pending = None
                         continue
+                    if v_ == 'stream':
+                        try:
+                            h.hooks['.close'](self, [ex_], {})
+                        except Raised as y_:
+                            pending = y_
+                        continue
+                    if v_ == 'genctx':
+                        try:
+                            if pending is None:
+                                more_ = ex_.has_next()
+                            else:
+                                more_, _x = ex_.owner.throw(pending)
+                                ex_.done = True
+                                pending = None          # (the generator ended without re-raising: the exception is swallowed)
+                            if more_:
+                                raise Raised('RuntimeError', h.version, st.lineno)          # generator didn't stop
+                        except Raised as y_:
+                            pending = y_
+                        continue
                     res_ = self.call(Closure(ex_.node, {}, v_, ex_.cls), [('class', pending.exc), None, None] if pending is not None else [None, None, None])
                     if pending is not None and self.truth(res_):
                         pending = None
                 if pending is not None:
-                    raise
+                    if pending is x_:
+                        raise
+                    raise pending
                 return None
             for v_, ex_ in reversed(entered):
-                if v_ != 'suppress':
+                if v_ == 'stream':
+                    h.hooks['.close'](self, [ex_], {})
+                elif v_ == 'genctx':
+                    if ex_.has_next():
+                        raise Raised('RuntimeError', h.version, st.lineno)          # generator didn't stop
+                elif v_ != 'suppress':
                     self.call(Closure(ex_.node, {}, v_, ex_.cls), [None, None, None])
             return r_
         if isinstance(st, ast.Assert):
@@ -2731,6 +2826,8 @@ class Interp:
                 raise Raised('AssertionError', h.version, st.lineno)
             return None
         if isinstance(st, ast.Raise):
+            if isinstance(st.exc, ast.Name) and isinstance(env.get(st.exc.id), tuple) and len(env[st.exc.id]) == 2 and env[st.exc.id][0] == 'exception':
+                raise Raised(env[st.exc.id][1], h.version, st.lineno)          # raise e: the exception a handler bound to that name
             name = norm(st.exc.func) if isinstance(st.exc, ast.Call) else (norm(st.exc) if st.exc is not None else 're-raise')
             raise Raised(name, h.version, st.lineno)
         if isinstance(st, ast.Delete):
@@ -2758,21 +2855,37 @@ class Interp:
                     raise AnalysisError('heap model: del %s' % norm(t))
             return None
         if isinstance(st, ast.Try):
+            def guarded_():
+                try:
+                    r = self.run(st.body, env, cls)
+                    if r is not None:
+                        return r
+                    return self.run(st.orelse, env, cls)
+                except Raised as x:
+                    for hd in st.handlers:
+                        if _handler_matches(hd.type, x.exc):
+                            if hd.name:
+                                env[hd.name] = ('exception', x.exc)
+                            try:
+                                return self.run(hd.body, env, cls)
+                            except Raised as y:
+                                if y.exc == 're-raise':
+                                    raise Raised(x.exc, h.version, y.lineno)
+                                raise
+                    raise
+            if not st.finalbody:
+                return guarded_()
+            # try ... finally: the final block runs on every way out -- the end of the block, return / break / continue, an exception;
+            # a return / break / continue of its own replaces what was on the way out
             try:
-                r = self.run(st.body, env, cls)
-                if r is not None:
-                    return r
-                return self.run(st.orelse, env, cls)
-            except Raised as x:
-                for hd in st.handlers:
-                    if _handler_matches(hd.type, x.exc):
-                        try:
-                            return self.run(hd.body, env, cls)
-                        except Raised as y:
-                            if y.exc == 're-raise':
-                                raise Raised(x.exc, h.version, y.lineno)
-                            raise
+                r = guarded_()
+            except Raised:
+                rf = self.run(st.finalbody, env, cls)
+                if rf is not None:
+                    return rf
                 raise
+            rf = self.run(st.finalbody, env, cls)
+            return rf if rf is not None else r
         if isinstance(st, ast.For):
             itv = self.ev(st.iter, env, cls)
             if isinstance(itv, PyIter):
